@@ -1,0 +1,10 @@
+//go:build verif
+
+package promapi
+
+import "time"
+
+// VerifSliceRange exposes sliceRange.
+func VerifSliceRange(start, end time.Time, resolution, sliceSize time.Duration) []TimeRange {
+	return sliceRange(start, end, resolution, sliceSize)
+}
